@@ -253,6 +253,56 @@ func (P *Program) runStructural(spec string) []StructObl {
 			return fail("no access to %s.%s found (renamed?)", fs[1], fs[2])
 		}
 		return ok(fmt.Sprintf("%d accessor function(s), all hold the lock", checked))
+	case "snapshot-under-one-lock":
+		// snapshot-under-one-lock <funcKey> <pkg.Type> <field,field>: the function reads all the listed fields itself, inside
+		// one critical section (lock taken in the entry block, unlock deferred), and does not delegate to other methods
+		// of the type (each of which would lock separately and allow a torn read)
+		fn := P.fnByKey[fs[1]]
+		if fn == nil || len(fs) < 4 {
+			return fail("bad spec or function %s not found", fs[1])
+		}
+		want := map[string]bool{}
+		for _, f := range strings.Split(fs[3], ",") {
+			want[f] = true
+		}
+		locked, deferred := false, false
+		for _, b := range fn.Blocks {
+			for _, ins := range b.Instrs {
+				switch x := ins.(type) {
+				case *ssa.Call:
+					if callee := x.Call.StaticCallee(); callee != nil {
+						if (callee.Name() == "Lock" || callee.Name() == "RLock") && b.Index == 0 {
+							locked = true
+						} else if callee.Signature.Recv() != nil && strings.TrimPrefix(P.sorts.typeName(callee.Signature.Recv().Type()), "*") == fs[2] {
+							return fail("%s delegates to %s, which takes the lock on its own: the fields are not read in one critical section", fs[1], P.fnKey(callee))
+						}
+					}
+				case *ssa.Defer:
+					if callee := x.Call.StaticCallee(); callee != nil && (callee.Name() == "Unlock" || callee.Name() == "RUnlock") {
+						deferred = true
+					}
+				case *ssa.FieldAddr:
+					if st, named := structOfPtrType(x.X.Type()); st != nil && P.sorts.typeName(named) == fs[2] {
+						if !locked && want[st.Field(x.Field).Name()] {
+							return fail("%s reads %s.%s before taking the lock", fs[1], fs[2], st.Field(x.Field).Name())
+						}
+						delete(want, st.Field(x.Field).Name())
+					}
+				}
+			}
+		}
+		if len(want) > 0 {
+			var missing []string
+			for f := range want {
+				missing = append(missing, f)
+			}
+			sort.Strings(missing)
+			return fail("%s does not read %s itself", fs[1], strings.Join(missing, ","))
+		}
+		if !locked || !deferred {
+			return fail("%s does not hold one lock for the whole read (lock in entry block: %v, deferred unlock: %v)", fs[1], locked, deferred)
+		}
+		return ok("all fields read in one critical section")
 	case "not-reachable":
 		// not-reachable <targetFuncKey> from <rootFuncKey,...>: the static call graph (direct calls, closures created,
 		// method values) of the roots does not contain the target
